@@ -424,14 +424,14 @@ func (r *patchRunner) Apply(filename string, f *ast.File) (fout *ast.File, comme
 			}
 
 			snap = snap.Diff(fout, cl)
-			cleanupFilePos(r.fset.File(fout.Pos()), cl, fout.Comments)
+			fout.Comments = cleanupFilePos(r.fset.File(fout.Pos()), cl, fout.Comments)
 		}
 	}
 
 	return fout, comments, matched
 }
 
-func cleanupFilePos(tfile *token.File, cl engine.Changelog, comments []*ast.CommentGroup) {
+func cleanupFilePos(tfile *token.File, cl engine.Changelog, comments []*ast.CommentGroup) []*ast.CommentGroup {
 	linesToDelete := make(map[int]struct{})
 	for _, dr := range cl.ChangedIntervals() {
 		if dr.Start == token.NoPos {
@@ -467,4 +467,14 @@ func cleanupFilePos(tfile *token.File, cl engine.Changelog, comments []*ast.Comm
 	for i := len(lines) - 1; i >= 0; i-- {
 		tfile.MergeLine(lines[i])
 	}
+
+	// A group left without comments is not a valid node (its Pos and End
+	// panic), so it must not stay in the file's list of comments.
+	kept := make([]*ast.CommentGroup, 0, len(comments))
+	for _, cg := range comments {
+		if len(cg.List) > 0 {
+			kept = append(kept, cg)
+		}
+	}
+	return kept
 }
